@@ -196,3 +196,82 @@ func genShape(rt *rapid.T) shapeSpec {
 	}
 	return s
 }
+
+// ---- certificate-sequence sweep ---------------------------------------------
+
+type certSeq struct {
+	Name  string
+	Certs []Cert
+}
+
+// certSweep lists hand-written valid certificate sequences (against the state
+// made by certSweepState) that exercise repeated (de)registrations of the SAME
+// credential / pool / DRep within one transaction.
+func certSweep(era Era, p Params) []certSeq {
+	const K, K2, U, P, PN, D, DN = 4, 6, 5, 8, 9, 10, 11 // K,K2 registered keys; U unregistered; P registered pool; PN new pool; D registered drep; DN new
+	reg := func(k int) Cert {
+		if era >= Dijkstra {
+			return Cert{Kind: CReg, Key: k, Amount: p.KeyDeposit}
+		}
+		return Cert{Kind: CStakeReg, Key: k}
+	}
+	dereg := func(k int) Cert {
+		if era >= Dijkstra {
+			return Cert{Kind: CUnreg, Key: k, Amount: p.KeyDeposit}
+		}
+		return Cert{Kind: CStakeDereg, Key: k}
+	}
+	pool := func(k int) Cert { return Cert{Kind: CPoolReg, Key: k, Pool: k} }
+	out := []certSeq{
+		{"dereg-reg-dereg-same-key", []Cert{dereg(K), reg(K), dereg(K)}},
+		{"dereg-reg-dereg-reg-same-key", []Cert{dereg(K), reg(K), dereg(K), reg(K)}},
+		{"reg-dereg-reg-same-key", []Cert{reg(U), dereg(U), reg(U)}},
+		{"reg-dereg-same-key", []Cert{reg(U), dereg(U)}},
+		{"dereg-two-keys", []Cert{dereg(K), dereg(K2)}},
+		{"dereg-one-key", []Cert{dereg(K)}},
+		{"reg-one-key", []Cert{reg(U)}},
+		{"pool-new", []Cert{pool(PN)}},
+		{"pool-rereg", []Cert{pool(P)}},
+		{"pool-new-and-rereg", []Cert{pool(PN), pool(P)}},
+		{"pool-new-then-retire", []Cert{pool(PN), {Kind: CPoolRetire, Key: PN, Pool: PN, Amount: 5}}},
+		{"pool-retire", []Cert{{Kind: CPoolRetire, Key: P, Pool: P, Amount: 5}}},
+	}
+	if era >= Conway {
+		creg := func(k int) Cert { return Cert{Kind: CReg, Key: k, Amount: p.KeyDeposit} }
+		cunreg := func(k int) Cert { return Cert{Kind: CUnreg, Key: k, Amount: p.KeyDeposit} }
+		dreg := func(k int) Cert { return Cert{Kind: CDRepReg, Key: k, Amount: p.DRepDeposit} }
+		dunreg := func(k int) Cert { return Cert{Kind: CDRepUnreg, Key: k, Amount: p.DRepDeposit} }
+		out = append(out,
+			certSeq{"unreg-reg-unreg-same-key", []Cert{cunreg(K), creg(K), cunreg(K)}},
+			certSeq{"drep-unreg-reg-unreg", []Cert{dunreg(D), dreg(D), dunreg(D)}},
+			certSeq{"drep-reg-unreg-reg", []Cert{dreg(DN), dunreg(DN), dreg(DN)}},
+			certSeq{"drep-reg", []Cert{dreg(DN)}},
+			certSeq{"drep-unreg", []Cert{dunreg(D)}},
+			certSeq{"reg-deleg-kinds", []Cert{{Kind: CStakeRegDeleg, Key: U, Pool: P, Amount: p.KeyDeposit}, cunreg(U), {Kind: CVoteRegDeleg, Key: U, Amount: p.KeyDeposit}}},
+		)
+		if era == Conway {
+			out = append(out, certSeq{"mixed-old-new-kinds", []Cert{{Kind: CStakeDereg, Key: K}, creg(K), cunreg(K), {Kind: CStakeReg, Key: K}}})
+		}
+	}
+	return out
+}
+
+// buildCertCase: one input, one output, the given certificates; the output
+// coin is solved from the reference formula so that the case is balanced.
+func buildCertCase(era Era, cs []Cert, p Params, delta int64) *Case {
+	ss := newStSpec()
+	ss.StakeReg[4], ss.StakeReg[6] = true, true
+	ss.Pools[8] = true
+	ss.DReps[10] = true
+	in := In{TxID: hash256([]byte("certsweep")), Ix: 0, Key: 0, V: Val{Coin: 5_000_000_000}}
+	tx := &TxSpec{Era: era, Net: 0, Ins: []In{in}, Certs: cs, Fee: p.MinFeeA*3000 + p.MinFeeB + 1000,
+		Outs: []Out{{Addr: payAddr(0, 1), MapForm: era >= Babbage}}}
+	if era == Shelley {
+		tx.TTL = u64p(100_000)
+	}
+	c := &Case{Tx: tx, P: p, SS: ss, Slot: 5000}
+	rem := new(big.Int).Sub(refConsumed(tx, p).Coin, refProduced(tx, p, ss).Coin)
+	rem.Add(rem, big.NewInt(delta))
+	tx.Outs[0].V.Coin = rem.Uint64()
+	return c
+}
